@@ -27,8 +27,8 @@ CLI = "gaddlemaps/_cli.py"
 V = []
 
 
-def add(prop, kind, f, old, new, desc):
-    V.append({"property": prop, "kind": kind, "file": f, "old": old, "new": new, "desc": desc})
+def add(prop, kind, f, old, new, desc, more=None):
+    V.append({"property": prop, "kind": kind, "file": f, "old": old, "new": new, "desc": desc, "more": list(more or [])})
 
 
 # ----------------------------------------------------------------------------- C01 / C02 / C03
@@ -263,3 +263,52 @@ add("C20", "B", CLI, '                new_mol = [molecule_info[molecule_name]["t
 add("C20", "B", CLI, '        out_path = os.path.join(folder, f"mapped_{basename}")', '        out_path = f"mapped_{basename}"', "default output not beside the input")
 add("C20", "B", CLI, "        if molecule_files[2] in topology_files:\n            topology_files.remove(molecule_files[2])\n", "", "explicit end topology still scanned")
 add("C20", "P", CLI, "    topology_molecues = [(i, MoleculeTop(i)) for i in sorted(topology_files)]", "    ordered_tops = sorted(topology_files)\n    topology_molecues = [(i, MoleculeTop(i)) for i in ordered_tops]", "sorted list materialised earlier")
+
+
+# ----------------------------------------------------------------------------- rules added after the seeded rounds
+_PULL = """        diferencia = atoms_pos[ind1] - atoms_pos[ind2]
+        modulo = np.linalg.norm(diferencia)
+        unit = diferencia/modulo
+        atoms_pos[ind2] = atoms_pos[ind2] + (modulo - bond) * unit
+"""
+_HELPER = """def _restore_bond(anchor, atom, bond):
+    diferencia = anchor - atom
+    modulo = np.linalg.norm(diferencia)
+%s    return atom + (modulo - bond) * diferencia / modulo
+
+
+def find_atom_random_displ("""
+for p in ("C07", "C06"):
+    add(p, "P", TM, _PULL, "        atoms_pos[ind2] = _restore_bond(atoms_pos[ind1], atoms_pos[ind2], bond)\n",
+        "pull moved into a module-level helper (same arithmetic)", more=[(TM, "def find_atom_random_displ(", _HELPER % "")])
+    add(p, "B", TM, _PULL, "        atoms_pos[ind2] = _restore_bond(atoms_pos[ind1], atoms_pos[ind2], bond)\n",
+        "helper leaves the atom where it is when the bond is np.isclose to the table",
+        more=[(TM, "def find_atom_random_displ(", _HELPER % "    if np.isclose(modulo, bond):\n        return atom\n")])
+for p in ("C01", "C02", "C03"):
+    add(p, "B", E, "        new_mol = self._targetmolecule.copy()\n        for atom in new_mol:",
+        "        new_mol = self._targetmolecule.copy()\n        scratch = np.empty((len(new_mol), 3), dtype=np.float32)\n        for atom in new_mol:",
+        "a float32 buffer on the restoration path")
+add("C08", "B", B, "        return self._meth_to_call(mol2)", "        return self._meth_to_call(np.asarray(mol2, dtype=self._mol1_positions.dtype))",
+    "evaluated configuration cast to the fixed array's dtype")
+add("C08", "P", B, "        return self._meth_to_call(mol2)", "        return self._meth_to_call(np.asarray(mol2, dtype=np.float64))",
+    "evaluated configuration converted to float64")
+for p in ("C13", "C05"):
+    add(p, "B", P, "            if value[-1] == '\\n':\n                value = value[:-1]\n            self._comment = value",
+        "            self._comment = value.strip()", "title stripped of leading/trailing blanks")
+    add(p, "P", P, "            if value[-1] == '\\n':\n                value = value[:-1]\n            self._comment = value",
+        "            self._comment = value.rstrip('\\n')", "title less its newline via rstrip('\\n')")
+add("C02", "B", E, "        vectores = np.array(self._refsystems[atomref][0])\n        return center + np.dot(proyection, vectores)",
+    "        if atomref not in self._equivalences_m:\n            self._equivalences_m[atomref] = np.array(self._refsystems[atomref][0])\n        return center + np.dot(proyection, self._equivalences_m[atomref])",
+    "basis matrices cached per anchor and never invalidated",
+    more=[(E, "        self._equivalences: Dict[int, int] = {}", "        self._equivalences: Dict[int, int] = {}\n        self._equivalences_m = {}")])
+add("C20", "B", CLI, "for i in sorted(topology_files)]", "for i in sorted(topology_files, key=len)]", "candidates sorted by a non-injective key")
+add("C20", "P", CLI, "for i in sorted(topology_files)]", "for i in sorted(topology_files, key=lambda x: (len(x), x))]", "candidates sorted by (len, name)")
+add("C17", "B", A, "np.sin(theta) * skew", "np.sqrt(1 - np.cos(theta) ** 2) * skew", "sin replaced by sqrt(1 - cos^2)")
+add("C15", "B", TP, "    for key in ('constraints', 'bonds', 'pairs'):", "    keys = ['constraints', 'bonds']\n    if not condition_bonds:\n        keys.append('pairs')\n    for key in keys:",
+    "pairs gathered only when there is no bonds section")
+add("C15", "P", TP, "    for key in ('constraints', 'bonds', 'pairs'):", "    keys = ['constraints', 'bonds']\n    keys.append('pairs')\n    for key in keys:",
+    "key list built in a local")
+add("C01", "B", E, "        if n_atoms in [1, 2]:", "        if n_atoms <= 3:", "three-atom references take the single-frame branch")
+add("C01", "P", E, "        if n_atoms in [1, 2]:", "        if n_atoms < 3:", "size test written n < 3")
+add("C05", "B", S, "                new_block = True\n                start_index += 1", "                new_block = True\n                start_index += l_index_mol",
+    "scanner jumps over the discarded window")
